@@ -8,11 +8,14 @@ CLAIMED = {
     "C14": dict(
         level="other", design="3/C14",
         technique="static analysis: guard-dominance (no unsigned wrap), must-pass-through and "
-                  "control-dependence on the CFG of get_restart_writer and the dump site, CAS comparison of the shift bound",
+                  "control-dependence on the CFG of get_restart_writer and the dump site, CAS comparison of the shift bound; abstract "
+                  "interpretation of get_restart_writer over the finite domain {0, 1, >=2} of its counters with a reachable-state "
+                  "fixpoint across calls (class invariant of the manager)",
         text="Decides the structural clauses of the rotation protocol for every number of backups and dumps: "
              "no rotation counter can wrap, backups are shifted i-1 -> i downwards from min(max-1, nbackups) before the "
              "old dump is renamed to backup 0, that rename happens exactly when a previous dump exists and precedes the "
-             "truncating open, rename failures abort, the dump site closes the writer and a stop is dumped before resubmit. "
+             "truncating open - also when the rename is folded into the shift loop, in every counter state the manager can reach - "
+             "rename failures abort, the dump site closes the writer and a stop is dumped before resubmit. "
              "The newest-first history claim follows by the pencil argument in DESIGN.md; crash timing is not explored.",
         note="Trusted: clang front end, AST export, atomic rename (POSIX); nothing else touches the dump files."),
 }
